@@ -10,6 +10,14 @@
 // processes and in processes with unrelated prior activity; SHA-256 digests of the receipts,
 // KV sets, state roots, local KV sets (add/del), stored block details and the final
 // blockchain database must be identical across runs.
+//
+// (c) large tx roots: for blocks of 81 .. ~9000 cheap main-chain transactions (sizes around
+// 512*k for the taskset widths k of the workers: that is where GetMerkleRoot's chunk size reaches
+// its 256 cap and the last chunk is padded) the same worker processes compute
+// merkle.CalcMerkleRoot before / after ForkRootHash, the TxHash and block hash of
+// util.CreateNewBlock, merkle.GetMerkleRoot of the hash list and merkle.CalcMerkleRootCache;
+// every run must return the roots of the harness' own sequential reference (pairwise double
+// SHA-256, last element duplicated on odd levels).
 package main
 
 import (
@@ -69,12 +77,13 @@ func keyIndex(b []byte) uint64 {
 // ---------- inputs (the replay format) ----------
 
 type input struct {
-	Kind  string   `json:"kind"`
-	L     []int    `json:"l,omitempty"`     // key / hash / exec / name indices, or 0/1 sign flags
-	Pi    []int    `json:"pi,omitempty"`    // permutation handed to the model
-	Procs int      `json:"procs,omitempty"` // GOMAXPROCS for the call
-	Scen  *scen    `json:"scen,omitempty"`
-	Wk    []wkMode `json:"wk,omitempty"`
+	Kind  string    `json:"kind"`
+	L     []int     `json:"l,omitempty"`     // key / hash / exec / name indices, or 0/1 sign flags
+	Pi    []int     `json:"pi,omitempty"`    // permutation handed to the model
+	Procs int       `json:"procs,omitempty"` // GOMAXPROCS for the call
+	Scen  *scen     `json:"scen,omitempty"`
+	Wk    []wkMode  `json:"wk,omitempty"`
+	Root  *rootSpec `json:"root,omitempty"`
 }
 
 func nl(xs []int) string {
@@ -514,10 +523,11 @@ type wkMode struct {
 }
 
 type job struct {
-	Mode   wkMode `json:"mode"`
-	Scens  []scen `json:"scens"`
-	Result string `json:"result"`
-	Seed   uint64 `json:"seed"`
+	Mode   wkMode     `json:"mode"`
+	Scens  []scen     `json:"scens"`
+	Roots  []rootSpec `json:"roots,omitempty"`
+	Result string     `json:"result"`
+	Seed   uint64     `json:"seed"`
 }
 
 const nObs = 10
@@ -534,6 +544,7 @@ type runRes struct {
 	Obs    [][]string `json:"obs"` // per block, nObs-1 hex digests; last entry: [db dump digest]
 	Note   string     `json:"note,omitempty"`
 	Stats  [][5]int   `json:"stats,omitempty"` // per block: proposed, kept, ExecOk receipts, ExecPack receipts, local KVs of EventAddBlock
+	Us     int64      `json:"us,omitempty"`    // large tx roots: time spent in the worker
 }
 
 func quiet() {
@@ -817,6 +828,15 @@ func workerMain(jobfile string) {
 	if reps < 1 {
 		reps = 1
 	}
+	rootPass := func(when string) {
+		for _, rs := range j.Roots {
+			t := time.Now()
+			obs := rootObs(genCfg, rs)
+			results = append(results, runRes{Scen: rs.ID, Tag: j.Mode.Tag + "#" + when, NumCPU: runtime.NumCPU(),
+				Procs: runtime.GOMAXPROCS(0), Obs: [][]string{obs}, Us: time.Since(t).Microseconds()})
+		}
+	}
+	rootPass("pre")
 	for rep := 0; rep < reps; rep++ {
 		for i := range j.Scens {
 			sc := j.Scens[i]
@@ -825,11 +845,222 @@ func workerMain(jobfile string) {
 				Procs: runtime.GOMAXPROCS(0), Obs: obs, Note: note, Stats: stats})
 		}
 	}
+	if len(j.Scens) > 0 {
+		rootPass("post") // same process, after the block sequences were executed
+	}
 	close(stop)
 	wg.Wait()
 	out, _ := json.Marshal(results)
 	if err := os.WriteFile(j.Result, out, 0o644); err != nil {
 		panic(err)
+	}
+}
+
+// ---------- (c) large tx roots ----------
+
+// rootSpec names one block of N cheap main-chain transactions (rebuilt from N and Salt on both sides).
+type rootSpec struct {
+	ID   int    `json:"id"`
+	N    int    `json:"n"`
+	Salt uint64 `json:"salt"`
+}
+
+const rootIDBase = 1000000
+const rootHeight = 5 // ForkRootHash (and ForkBlockHash) are active from height 1 in the local configuration
+
+var rootObsNames = []string{"merkle.CalcMerkleRoot before ForkRootHash (height 0)", "merkle.CalcMerkleRoot after ForkRootHash",
+	"TxHash of util.CreateNewBlock", "block hash of util.CreateNewBlock", "merkle.GetMerkleRoot(tx hashes)", "merkle.CalcMerkleRootCache"}
+
+// rootTxs: unsigned-in-effect transactions (a filler signature makes Hash and FullHash differ); only the
+// hashes matter. All executors are main-chain ones: TransactionSort keeps the order, one child chain.
+func rootTxs(rs rootSpec) []*types.Transaction {
+	execs := []string{"none", "coins", "ticket"}
+	txs := make([]*types.Transaction, rs.N)
+	for i := range txs {
+		p := make([]byte, 12)
+		binary.BigEndian.PutUint64(p[:8], rs.Salt)
+		binary.BigEndian.PutUint32(p[8:], uint32(i))
+		txs[i] = &types.Transaction{Execer: []byte(execs[i%len(execs)]), Payload: p, Nonce: int64(i) + 1,
+			To: "1JmFaA6unrCFYEWPGRi7uuXY1KthTJxJEP", Signature: &types.Signature{Ty: 1, Pubkey: p[4:], Signature: p}}
+	}
+	return txs
+}
+
+func rootParent() *types.Block {
+	return &types.Block{Height: rootHeight - 1, BlockTime: 1600000000, TxHash: zero32[:], StateHash: zero32[:], ParentHash: zero32[:]}
+}
+
+// rootObs: what the implementation computes in this process (NumCPU / GOMAXPROCS as started).
+func rootObs(cfg *types.Chain33Config, rs rootSpec) (obs []string) {
+	obs = make([]string, len(rootObsNames))
+	step := func(k int, f func() []byte) {
+		defer func() {
+			if e := recover(); e != nil {
+				obs[k] = fmt.Sprintf("panic: %v", e)
+			}
+		}()
+		obs[k] = hex.EncodeToString(f())
+	}
+	txs := rootTxs(rs)
+	step(0, func() []byte { return merkle.CalcMerkleRoot(cfg, 0, txs) })
+	step(1, func() []byte { return merkle.CalcMerkleRoot(cfg, rootHeight, txs) })
+	var blk *types.Block
+	step(2, func() []byte {
+		blk = util.CreateNewBlock(cfg, rootParent(), txs)
+		return blk.TxHash
+	})
+	step(3, func() []byte { return blk.Hash(cfg) })
+	step(4, func() []byte {
+		hs := make([][]byte, len(txs)) // getMerkleRoot works in place: hand it its own slice
+		for i, tx := range txs {
+			hs[i] = tx.Hash()
+		}
+		return merkle.GetMerkleRoot(hs)
+	})
+	step(5, func() []byte {
+		cs := make([]*types.TransactionCache, len(txs))
+		for i, tx := range txs {
+			cs[i] = types.NewTransactionCache(tx)
+		}
+		return merkle.CalcMerkleRootCache(cs)
+	})
+	return obs
+}
+
+func sha2(b []byte) []byte {
+	a := sha256.Sum256(b)
+	a = sha256.Sum256(a[:])
+	return a[:]
+}
+
+// seqRoot: the reference. One level = duplicate the last element when the count is odd, hash pairs.
+func seqRoot(leaves [][]byte) []byte {
+	if len(leaves) == 0 {
+		return zero32[:]
+	}
+	cur := make([][]byte, len(leaves))
+	copy(cur, leaves)
+	for len(cur) > 1 {
+		if len(cur)%2 == 1 {
+			cur = append(cur, cur[len(cur)-1])
+		}
+		next := make([][]byte, 0, len(cur)/2)
+		for i := 0; i < len(cur); i += 2 {
+			next = append(next, sha2(append(append(make([]byte, 0, 64), cur[i]...), cur[i+1]...)))
+		}
+		cur = next
+	}
+	return cur[0]
+}
+
+// rootRef: the same observables from the reference computation (no call into common/merkle).
+func rootRef(cfg *types.Chain33Config, rs rootSpec) []string {
+	txs := rootTxs(rs)
+	hs, fhs := make([][]byte, len(txs)), make([][]byte, len(txs))
+	for i, tx := range txs {
+		hs[i], fhs[i] = tx.Hash(), tx.FullHash()
+	}
+	pre, post := seqRoot(hs), seqRoot(fhs)
+	p := rootParent()
+	blk := &types.Block{Height: p.Height + 1, BlockTime: p.BlockTime + 1, ParentHash: p.Hash(cfg), Txs: txs, TxHash: post}
+	ref := [][]byte{pre, post, post, blk.Hash(cfg), pre, pre}
+	out := make([]string, len(ref))
+	for i, b := range ref {
+		out[i] = hex.EncodeToString(b)
+	}
+	return out
+}
+
+func rootNum(s string) uint64 {
+	b, err := hex.DecodeString(s)
+	if err != nil || len(b) != 32 {
+		d := sha256.Sum256([]byte("not a hash: " + s))
+		return binary.BigEndian.Uint64(d[:8])>>1 | 1
+	}
+	return binary.BigEndian.Uint64(b[:8]) >> 1
+}
+
+func nums(xs []string) string {
+	it := make([]string, len(xs))
+	for i, x := range xs {
+		it[i] = fmt.Sprint(rootNum(x))
+	}
+	return "[" + strings.Join(it, ";") + "]"
+}
+
+// capPartial: GetMerkleRoot on ncpu CPUs cuts 256-leaf chunks (cap reached) and pads the last one.
+func capPartial(n, ncpu int) bool { return ncpu >= 2 && n >= 512*ncpu && n%256 != 0 }
+
+func rootSizes(r *hlib.Rng, thorough bool) []rootSpec {
+	// 512*k (k = taskset width) is where the 256 cap is reached: 1030/1500 (2), 1537/2100 (3, 4), 2600, 4200 (8), 8300 (16);
+	// 81 / 600: chunked below the cap; 1024: cap reached, no partial chunk
+	ns := []int{81, 600, 1024, 1030, 1500, 1537, 2100, 2600, 4200, 8300}
+	ks := []int{2, 3, 4, 8, 16}
+	extra := 3
+	if thorough {
+		extra = 40
+		for _, k := range ks {
+			ns = append(ns, 512*k-1, 512*k, 512*k+1, 512*k+255, 512*k+256, 512*k+257, 1024*k+131)
+		}
+	}
+	for i := 0; i < extra; i++ {
+		k := ks[r.Intn(len(ks))]
+		n := 512*k + 1 + r.Intn(700)
+		if thorough && i%4 == 3 {
+			n = 82 + r.Intn(9400)
+		}
+		if n%256 == 0 {
+			n++
+		}
+		ns = append(ns, n)
+	}
+	out := make([]rootSpec, len(ns))
+	for i, n := range ns {
+		out[i] = rootSpec{ID: rootIDBase + i, N: n, Salt: r.U64()}
+	}
+	return out
+}
+
+// emitRoots: one CRoot case per block size: reference vs every run of every worker.
+func emitRoots(o *hlib.Out, roots []rootSpec, ms []wkMode, all []runRes) {
+	for _, rs := range roots {
+		ref := rootRef(genCfg, rs)
+		var runs []runRes
+		for _, r := range all {
+			if r.Scen == rs.ID && len(r.Obs) == 1 {
+				runs = append(runs, r)
+			}
+		}
+		vs, tags, ncpus := make([]string, len(runs)), make([]string, len(runs)), make([]string, len(runs))
+		diff, capped, par, us := "", 0, 0, int64(0)
+		for i, r := range runs {
+			us += r.Us
+			vs[i] = nums(r.Obs[0])
+			ncpus[i] = fmt.Sprint(r.NumCPU)
+			tags[i] = fmt.Sprintf("%s(ncpu=%d,procs=%d)", r.Tag, r.NumCPU, r.Procs)
+			if capPartial(rs.N, r.NumCPU) {
+				capped++
+			}
+			if rs.N > 80 && r.NumCPU >= 2 {
+				par++
+			}
+			for k := 0; k < len(ref) && k < len(r.Obs[0]) && diff == ""; k++ {
+				if r.Obs[0][k] != ref[k] {
+					diff = fmt.Sprintf("%s, %d transactions, %s: %s, sequential reference %s", tags[i], rs.N, rootObsNames[k], r.Obs[0][k], ref[k])
+				}
+			}
+		}
+		kind := "troot-sequential"
+		if capped > 0 {
+			kind = "troot-cap-padded"
+		} else if par > 0 {
+			kind = "troot-chunked"
+		}
+		rsc := rs
+		o.Emit(kind, capped > 0, fmt.Sprintf("(CRoot %d [%s] %s [%s])", rs.N, strings.Join(ncpus, ";"), nums(ref), strings.Join(vs, ";")),
+			input{Kind: "troot", Root: &rsc, Wk: ms},
+			map[string]interface{}{"txs": rs.N, "runs": tags, "reference": ref, "first_difference": diff,
+				"runs_on_parallel_path": par, "runs_with_cap_and_padded_last_chunk": capped, "worker_ms_all_runs": us / 1000})
 	}
 }
 
@@ -1053,7 +1284,7 @@ func firstDiff(a, b runRes) string {
 	return ""
 }
 
-func repeated(o *hlib.Out, scens []scen, ms []wkMode, seed uint64, dir string, timeout time.Duration) error {
+func repeated(o *hlib.Out, scens []scen, roots []rootSpec, ms []wkMode, seed uint64, dir string, timeout time.Duration) error {
 	type res struct {
 		rs  []runRes
 		err error
@@ -1067,7 +1298,7 @@ func repeated(o *hlib.Out, scens []scen, ms []wkMode, seed uint64, dir string, t
 			defer wg.Done()
 			sem <- struct{}{}
 			defer func() { <-sem }()
-			rs, err := spawn(dir, i, job{Mode: ms[i], Scens: scens, Seed: seed}, timeout)
+			rs, err := spawn(dir, i, job{Mode: ms[i], Scens: scens, Roots: roots, Seed: seed}, timeout)
 			out[i] = res{rs, err}
 		}(i)
 	}
@@ -1122,6 +1353,11 @@ func repeated(o *hlib.Out, scens []scen, ms []wkMode, seed uint64, dir string, t
 			map[string]interface{}{"runs": tags, "first_difference": diff, "blocks": len(sc.Blocks), "txs": ntx, "note": note,
 				"per_block_proposed_kept_ok_pack_localkvs": stats})
 	}
+	var all []runRes
+	for i := range out {
+		all = append(all, out[i].rs...)
+	}
+	emitRoots(o, roots, ms, all)
 	return nil
 }
 
@@ -1156,8 +1392,16 @@ func main() {
 			fmt.Println("replay:", err)
 			os.Exit(2)
 		}
+		if in.Kind == "troot" && in.Root != nil {
+			if err := repeated(o, nil, []rootSpec{*in.Root}, in.Wk, opts.Seed, opts.OutDir, timeout); err != nil {
+				fmt.Println(err)
+				o.Close()
+				os.Exit(3)
+			}
+			return
+		}
 		if in.Kind == "runs" {
-			if err := repeated(o, []scen{*in.Scen}, in.Wk, opts.Seed, opts.OutDir, timeout); err != nil {
+			if err := repeated(o, []scen{*in.Scen}, nil, in.Wk, opts.Seed, opts.OutDir, timeout); err != nil {
 				fmt.Println(err)
 				o.Close()
 				os.Exit(3)
@@ -1183,8 +1427,9 @@ func main() {
 		sc.AddrFee = i%3 == 2
 		scens = append(scens, sc)
 	}
+	roots := rootSizes(r.Fork(), opts.Thorough())
 	t1 := time.Now()
-	if err := repeated(o, scens, modes(opts.Thorough()), opts.Seed, opts.OutDir, timeout); err != nil {
+	if err := repeated(o, scens, roots, modes(opts.Thorough()), opts.Seed, opts.OutDir, timeout); err != nil {
 		fmt.Println(err)
 		o.Close()
 		os.Exit(3)
